@@ -1,5 +1,5 @@
 CONSTANTS
-  Fix = "vars"
+  Fix = "none"
   N = 3
   Shared = {"x"}
   Locals = {}
@@ -12,7 +12,7 @@ CONSTANTS
   Aborts = TRUE
   SendLast = FALSE
   Record = TRUE
-  OnlyBad = FALSE
+  OnlyBad = TRUE
 INIT Init
 NEXT Next
 CHECK_DEADLOCK FALSE
